@@ -56,6 +56,14 @@ func (*T5) M0() {}
 func (*T5) M1() {}
 func (*T5) M2() {}
 
+// TE is only ever the dynamic type behind an I0 / I2 result: it implements
+// error as well, which must not make dig take a successful result for a failure.
+type TE struct{ Tok int64 }
+
+func (*TE) M0()           {}
+func (*TE) M2()           {}
+func (*TE) Error() string { return "TE is a value, not a failure" }
+
 // NS0 is a named slice type with a method (implements I0); used by the
 // bad-input grammar (flatten + As).
 type NS0 []*T0
@@ -94,6 +102,7 @@ func buildPool() map[string]*typeInfo {
 	regPtr(pool, "T3", func(t int64) *T3 { return &T3{t} })
 	regPtr(pool, "T4", func(t int64) *T4 { return &T4{t} })
 	regPtr(pool, "T5", func(t int64) *T5 { return &T5{t} })
+	regPtr(pool, "TE", func(t int64) *TE { return &TE{t} })
 	pool["S0"] = &typeInfo{Name: "S0", RT: reflect.TypeOf(S0{}), mk: func(t int64) reflect.Value { return reflect.ValueOf(S0{t}) }}
 	pool["S1"] = &typeInfo{Name: "S1", RT: reflect.TypeOf(S1{}), mk: func(t int64) reflect.Value { return reflect.ValueOf(S1{t}) }}
 	pool["L0"] = &typeInfo{Name: "L0", RT: reflect.TypeOf(L0(nil)), mk: func(t int64) reflect.Value { return reflect.ValueOf(L0{&T0{t}}) }}
@@ -117,15 +126,15 @@ var IfaceTypes = []string{"I0", "I1", "I2", "I01"}
 
 // Impls lists for each interface the concrete pool types implementing it.
 var Impls = map[string][]string{
-	"I0":  {"T0", "T1", "T5"},
+	"I0":  {"T0", "T1", "T5", "TE"},
 	"I1":  {"T0", "T2", "T5"},
-	"I2":  {"T2", "T3", "T5"},
+	"I2":  {"T2", "T3", "T5", "TE"},
 	"I01": {"T0", "T5"},
 }
 
 // IfacesOf lists interfaces implemented by a concrete type.
 var IfacesOf = map[string][]string{
-	"T0": {"I0", "I1", "I01"}, "T1": {"I0"}, "T2": {"I1", "I2"}, "T3": {"I2"}, "T4": {}, "T5": {"I0", "I1", "I2", "I01"}, "S0": {}, "S1": {}, "L0": {},
+	"T0": {"I0", "I1", "I01"}, "T1": {"I0"}, "T2": {"I1", "I2"}, "T3": {"I2"}, "T4": {}, "T5": {"I0", "I1", "I2", "I01"}, "S0": {}, "S1": {}, "L0": {}, "TE": {"I0", "I2"},
 	// an interface type implements the interfaces whose methods it has
 	"I01": {"I0", "I1", "I01"},
 }
@@ -206,6 +215,11 @@ func tokOf(v reflect.Value) (tok int64, ok bool) {
 		}
 		return x.Tok, true
 	case *T4:
+		if x == nil {
+			return 0, true
+		}
+		return x.Tok, true
+	case *TE:
 		if x == nil {
 			return 0, true
 		}
